@@ -337,6 +337,11 @@ package schema
 //@   modifies *
 //@   ensures implies(sch_card_err(xn_schema(c), xn_nchildren(c)) != nil, !result2 && len(result1) == 1 && result1[0] == sch_card_err(xn_schema(c), xn_nchildren(c)))
 
+//@ func validateLeafSchema
+//@   requires c != nil
+//@   modifies *
+//@   ensures implies(sch_card_err(xn_schema(c), dn_nvalues(c)) != nil, !result2 && len(result1) == 1 && result1[0] == sch_card_err(xn_schema(c), dn_nvalues(c)))
+
 // The validator's view of a data node.
 //@ func (xnode).schema
 //@   nopanic
